@@ -11,12 +11,17 @@ package common
 
 // little-endian commitment bytes: the reversed minimal big-endian bytes of |n|, zero-padded / capped to 32
 //@ func BigIntToLittleEndianBytes
-//@   props C19
+//@   props C19 C10
 //@   requires n != nil
 //@   ensures[len] len(result) == 32 && off(result) == 0
 //@   ensures[bytes] forall(k, 0, 32, seq(result)[k] == ite(k < bigLen(absInt(bigval(n))), bigBytes(absInt(bigval(n)))[bigLen(absInt(bigval(n))) - 1 - k], 0))
+//@   ensures[abstract] bytesOf(seq(result), 32) == leB(absInt(bigval(n)))
 //@   loop 0 invariant 0 <= i && i <= len(beBytes) && i <= 32 && len(leBytes) == 32 && off(leBytes) == 0
 //@   loop 0 invariant forall(k, 0, 32, seq(leBytes)[k] == ite(k < i, seq(beBytes)[len(beBytes) - 1 - k], 0))
+
+// leB(v): the abstract byte string of that 32-byte little-endian form (defined by the bytes it consists of)
+//@ spec fn leB(v int) Bytes
+//@ axiom leBdef(a []byte, v int) : forall(k, 0, 32, a[k] == ite(k < bigLen(v), bigBytes(v)[bigLen(v) - 1 - k], 0)) ==> bytesOf(a, 32) == leB(v) @trigger bytesOf(a, 32), leB(v)
 
 //@ func Uint32ToBytes
 //@   props C03 C10
